@@ -84,8 +84,11 @@ def nav(ctx, kind, op, ylo, yhi, mlo=1, mhi=12, keep=False):
     ctx.observe("r", [r.year, r.month, r.day])
 
 
-def first_last(ctx, kind, op, unit, ylo, yhi, with_wd=True):
+def first_last(ctx, kind, op, unit, ylo, yhi, with_wd=True, week_start=None):
     P = ctx.P
+    if week_start is not None:
+        P.week_starts_at(P.WeekDay(week_start))       # process-wide week configuration must not matter
+        P.week_ends_at(P.WeekDay((week_start + 6) % 7))
     y, m, d = _sym_date(ctx, ylo, yhi)
     x, t = _mk(ctx, kind, y, m, d)
     S, E = _unit_bounds(y, m, unit)
@@ -107,13 +110,13 @@ def first_last(ctx, kind, op, unit, ylo, yhi, with_wd=True):
     ctx.observe("r", [r.year, r.month, r.day])
 
 
-def nth(ctx, kind, unit, nmax, ylo, yhi):
+def nth(ctx, kind, unit, nmax, ylo, yhi, nmin=1):
     P = ctx.P
     y, m, d = _sym_date(ctx, ylo, yhi)
     x, t = _mk(ctx, kind, y, m, d)
     S, E = _unit_bounds(y, m, unit)
     wd = ctx.concrete(ctx.int("wd", 0, 6))
-    n = ctx.concrete(ctx.int("n", 1, nmax))
+    n = ctx.concrete(ctx.int("n", nmin, nmax))
     first = S + ((wd - cal.weekday(S)) % 7)
     exp = first + 7 * (n - 1)
     exists = exp <= E
@@ -149,6 +152,10 @@ def cases(tier):
             for unit in ("month", "quarter", "year"):
                 out.append(dict(name=f"{kind} {op} {unit}", fn=first_last, params=dict(kind=kind, op=op, unit=unit, ylo=win[0], yhi=win[1]),
                                 bounds=f"every {kind} value in years {win[0]}..{win[1]} x 7 weekdays"))
+            if kind == "date":
+                out.append(dict(name=f"{kind} {op} month with week starting on Sunday", fn=first_last,
+                                params=dict(kind=kind, op=op, unit="month", ylo=win[0], yhi=win[1], week_start=6),
+                                bounds=f"every {kind} value in years {win[0]}..{win[1]} x 7 weekdays, after week_starts_at(SUNDAY)"))
             out.append(dict(name=f"{kind} {op} month (no weekday)", fn=first_last,
                             params=dict(kind=kind, op=op, unit="month", ylo=win[0], yhi=win[1], with_wd=False),
                             bounds=f"every {kind} value in years {win[0]}..{win[1]}, weekday omitted"))
@@ -157,4 +164,8 @@ def cases(tier):
             for w in ((((1999, 1999), (2000, 2000)) if kind == "date" else ((2000, 2000),)) if tier == "quick" else (win,)):
                 out.append(dict(name=f"{kind} nth_of {unit} {w[0]}..{w[1]}", fn=nth, params=dict(kind=kind, unit=unit, nmax=nmax, ylo=w[0], yhi=w[1]),
                                 bounds=f"every {kind} value in years {w[0]}..{w[1]} x 7 weekdays x n in 1..{nmax}"))
+    # the 52nd/53rd/54th occurrence in a year (the upper end of n), one concrete leap and one common year
+    for yy in (1999, 2000):
+        out.append(dict(name=f"date nth_of year n=52..54 {yy}", fn=nth, params=dict(kind="date", unit="year", nmax=54, nmin=52, ylo=yy, yhi=yy),
+                        bounds=f"every Date in {yy} x 7 weekdays x n in 52..54"))
     return out
